@@ -91,6 +91,7 @@ type Stats struct {
 	MapPermFired int64 // non-identity permutation on a map with >=2 keys
 	MapRanges    int64
 	AddrTokens   int64
+	AddrNonAsc   int64 // tokens numbered other than "next ascending"
 	PoolGets     int64
 	PoolFresh    int64 // New() although items were free
 	PoolAny      int64 // non-LIFO item returned
@@ -173,6 +174,15 @@ func HeldBy(t int) int {
 
 //go:norace
 func GetStats() Stats { return R.st }
+
+// SetVariation switches the explore-mode gates of the map-order and address
+// seams (C09 varies them per object; a replay is driven by the tape alone).
+//
+//go:norace
+func SetVariation(mapPerm bool, addrPolicy int) {
+	R.cfg.MapPerm = mapPerm
+	R.cfg.AddrPolicy = addrPolicy
+}
 
 //go:norace
 func Verdict() int { return R.verdict }
